@@ -41,6 +41,7 @@ let bump k = Hashtbl.replace cov k (1 + try Hashtbl.find cov k with Not_found ->
 exception Timeout
 let budget = ref (try float_of_string (Sys.getenv "VERIF_JUDGE_BUDGET") with _ -> 6.0)
 let timeouts = ref 0
+let case_timeouts = ref 0
 let armed = ref false
 let () = Sys.set_signal Sys.sigalrm (Sys.Signal_handle (fun _ -> if !armed then begin armed := false; raise Timeout end))
 let timed (f : unit -> 'a) (dflt : 'a) : 'a =
@@ -49,8 +50,9 @@ let timed (f : unit -> 'a) (dflt : 'a) : 'a =
     armed := true;
     ignore (Unix.setitimer Unix.ITIMER_REAL { Unix.it_interval = 0.0; it_value = !budget });
     let r = f () in stop (); r
-  with Timeout -> stop (); incr timeouts; Gc.compact (); dflt
-     | Stack_overflow | Out_of_memory -> stop (); incr timeouts; Gc.compact (); dflt
+  with Timeout -> stop (); incr timeouts; incr case_timeouts; Gc.compact (); dflt
+     | Stack_overflow | Out_of_memory -> stop (); incr timeouts; incr case_timeouts; Gc.compact (); dflt
+     | e -> stop (); raise e
 
 type verdict = Ok | Fail of string | Undecided
 let of_ob expected what = function
@@ -235,7 +237,12 @@ let ref_op c : (int * obj) list * (unit -> (string * verdict) list) =
       let newdim = List.fold_left (fun a j -> if j >= 0 then max a (j + 1) else a) 0 m in
       if x1.s.seq0 = [] then [ id, { x1 with dim = List.length (List.filter (fun j -> j >= 0) m) } ], none
       else [ id, { (map_op x1 (map_dims pf (nat (max n newdim + 1))) false) with dim = newdim } ], none
-  | "topological_closure_assign" -> [ id, map_op x relax true ], none     (* the flag is left as it is *)
+  | "topological_closure_assign" ->
+      (* the closure of a non-empty polyhedron is its relaxation (PolyOps.relax_least); the closure of the empty set is empty *)
+      let close s = (match nonempty_sys nbx s with Some true -> relax s | Some false -> false_sys | None -> raise (Skip "undecided emptiness")) in
+      [ id, map_op x close true ], none     (* the flag is left as it is *)
+  | ("pairwise_reduce" | "collapse" | "collapse_all") when List.exists (fun (d : pd) -> snd d = None) x.s.seq0 ->
+      raise (Skip "a disjunct has no validated generator hint")
   | "omega_reduce" -> [ id, omega x ], none
   | "pairwise_reduce" -> [ id, { x with s = pairwise_reduce (ent nbx) (bot nbx) (ub n nbx) (ube n nbx) never x.s } ], none
   | "collapse" -> let m = nexti c in if m <= 0 then raise (Skip "ill-formed");
@@ -362,11 +369,12 @@ let () =
     while true do
       let line = input_line ic in
       let toks = split line in
+      if !case_timeouts >= 3 && not !dead then begin dead := true; bump "case-abandoned-after-3-timeouts" end;
       (match toks with
        | [] -> ()
        | t :: _ when t.[0] = '#' -> ()
        | "case" :: id :: tp :: _ -> case := id; topo := tp; step := 0; dead := false; Hashtbl.reset pool; incr stats_cases;
-           cow_hist := []; cow_n := 0; Hashtbl.reset raw_lines; Hashtbl.reset last_line; tainted := false; ignore (rdo ())
+           cow_hist := []; cow_n := 0; case_timeouts := 0; Hashtbl.reset raw_lines; Hashtbl.reset last_line; tainted := false; ignore (rdo ())
        | "end" :: _ -> ignore (rdo ())
        | "cw" :: rest ->
            incr step; incr stats_steps;
@@ -437,7 +445,8 @@ let () =
               | [ "res"; "ok" ] ->
                   (try
                     let upd, post = (match toks with
-                      | "new" :: _ -> ref_new { t = rest } !topo, (fun () -> [])
+                      | "new" :: _ -> (match timed (fun () -> Some (ref_new { t = rest } !topo)) None with
+                                       | Some r -> r, (fun () -> []) | None -> raise (Skip "reference computation exceeded its budget"))
                       | "copy" :: a :: b :: _ -> [ int_of_string a, get (int_of_string b) ], (fun () -> [])
                       | _ -> (let c = { t = rest } in
                               match rest with
@@ -463,7 +472,8 @@ let () =
                                   (* adopt the result; the argument (NNC only) has been omega-reduced in place *)
                                   resync st_x; Hashtbl.replace last_line id (try Hashtbl.find raw_lines id with Not_found -> "");
                                   (if x.topo = "NNC" then [ yid, omega y ] else []), (fun () -> [])
-                              | _ -> ref_op c)) in
+                              | _ -> (match timed (fun () -> Some (ref_op c)) None with
+                                      | Some r -> r | None -> raise (Skip "reference computation exceeded its budget")))) in
                     List.iter (fun (i, o) -> Hashtbl.replace pool i o) upd;
                     if not !dead then judge_states ~touched:(List.map fst upd) opname line sts;
                     List.iter (fun (k, v) -> report (opname ^ "/" ^ k) line v) (post ())
@@ -494,7 +504,8 @@ let () =
               | "ans" :: "exn" :: cls :: _ -> report (qn ^ "/exception") line (Fail ("unexpected exception " ^ cls)); dead := true
               | _ ->
                 (try
-                  let upd, vs = ref_query { t = rest } ans in
+                  let upd, vs = (match timed (fun () -> Some (ref_query { t = rest } ans)) None with
+                                 | Some r -> r | None -> raise (Skip "reference computation exceeded its budget")) in
                   List.iter (fun (k, v) -> report (qn ^ "/" ^ k) line v) vs;
                   List.iter (fun (i, o) -> Hashtbl.replace pool i o) upd;
                   judge_states ~touched:(List.map fst upd) qn line sts
